@@ -100,7 +100,14 @@ impl Ctx {
         let k = format!("oracle_failures.sig.{}", sig);
         let seen = *self.counters.get(&k).unwrap_or(&0);
         if seen < 20 {
-            self.oracle_failures.push(json!({"case_id": self.cur, "sig": sig, "what": what, "case": case}));
+            let rec = json!({"case_id": self.cur, "sig": sig, "what": what, "case": case});
+            // also appended to a side file at once: if the run is cut short (watchdog), the failing inputs found
+            // so far are not lost
+            if let Ok(p) = std::env::var("VERIF_PARTIAL") {
+                use std::io::Write;
+                if let Ok(mut f) = std::fs::OpenOptions::new().create(true).append(true).open(&p) { let _ = writeln!(f, "{}", rec); }
+            }
+            self.oracle_failures.push(rec);
         }
         self.count(&k);
         self.count("oracle_failures");
